@@ -474,6 +474,12 @@ func (c *Client) validVirtualChannelProposal(prop *VirtualChannelProposalMsg, ou
 		return errors.New("parent channel not found")
 	}
 
+	// A virtual channel that we merely hold as its hub cannot fund anything: we
+	// have no key for it.
+	if !parent.hasParticipant(c.address) {
+		return errors.New("not a participant of the parent channel")
+	}
+
 	parentState := parent.state() // We assume that the channel is locked.
 
 	if err := channel.AssertAssetsEqual(parentState.Assets, prop.InitBals.Assets); err != nil {
